@@ -78,8 +78,9 @@ CHECKS = {
             "DESIGN.md section 5, C08", TRUST),
     "C14": ("reference-model monitor (sets derived from the CLDR layout files) in two build configurations of the same harness",
             "The harness is built with and without the library's likelysubtags feature. In both builds every identifier of the workload (710 CLDR "
-            "layout locales exhaustively; triples as in C06; x 3 variant lists) is judged on exactly the clauses of the statement; answers the statement "
-            "leaves open are counted unconstrained, not judged.",
+            "layout locales exhaustively; triples as in C06; x 3 variant lists) is judged on exactly the clauses of the statement plus, with the feature on, "
+            "the likely-script refinement for script-less identifiers of right-to-left-listed languages (model derived from likelySubtags.json, as the "
+            "quantifier says); answers the statement leaves open are counted unconstrained, not judged.",
             "DESIGN.md section 5, C14", TRUST + " The layout JSON files are ground truth by the property's own wording."),
     "C18": ("invariant walker over the compiled statics (cfg hook) + Miri on every stored integer + re-run of the repository's generators",
             "All 8219 likely-subtags rows and 50 direction rows: strictly increasing under the exact key the binary search uses, every stored integer "
@@ -106,7 +107,7 @@ CHECKS = {
             "sorted by the key and transitive; == &str true iff canonical text, for LanguageIdentifier and the four subtag types.",
             "DESIGN.md section 5, C12", TRUST),
     "C17": ("round-trip + injectivity monitor; the raw (unsafe) round trips also under Miri (both tiers) and ASan (thorough)",
-            "from_parts(into_parts(x)) == x for reachable LanguageIdentifier/Locale values (extension string re-parsed), from_raw_parts_unchecked, every "
+            "from_parts(into_parts(x)) == x for reachable LanguageIdentifier/Locale values (extension string re-parsed), from_raw_parts_unchecked of both types, every "
             "permutation/duplication of <= 4 variants equals parsing the joined string, subtag -> integer -> from_raw_unchecked is the identity with the "
             "little-endian text intact; exhaustive over all 26^4 scripts, all regions, all 2-3 letter languages with injectivity counts.",
             "DESIGN.md section 5, C17", TRUST),
@@ -130,6 +131,10 @@ CHECKS = {
             "DESIGN.md section 5, C20", TRUST),
 }
 
+FUZZED = {"C01", "C02", "C03", "C04", "C05", "C09", "C10", "C13", "C15", "C19"}
+HISTORY = {"C01", "C06", "C07", "C08", "C14"}
+ECHO = {"C01", "C02", "C03", "C04", "C05", "C09", "C13", "C19", "C20"}
+
 REASON_PENDING = "check not built yet in this round; design in DESIGN.md section 5"
 
 
@@ -147,6 +152,15 @@ def main():
         pid = p["id"]
         if pid in CHECKS:
             tech, text, ref, note = CHECKS[pid]
+            if pid in FUZZED:
+                tech += "; thorough tier adds a coverage-guided libFuzzer workload under AddressSanitizer driving the same monitor"
+                text += (" Thorough additionally: 16 libFuzzer processes (SanitizerCoverage feedback, ASan, seeded corpus + dictionary, bounded by -runs) "
+                         "drive the same per-input monitor; recorded failures are confirmed and minimised on the release build.")
+            if pid in HISTORY:
+                text += (" History phase: per language the related queries are re-asked in several random orders (pure functions must not "
+                         "depend on the call history), each call judged by the same oracle.")
+            if pid in ECHO:
+                text += " Random phases re-issue inputs directly after themselves or after one other call (history independence)."
             checks.append({
                 "property_id": pid,
                 "quick_cmd": "bin/check run %s --tier quick" % pid,
